@@ -50,6 +50,12 @@ func hasSym(v value) bool {
 		}
 	case iface:
 		return hasSym(x.v)
+	case []value:
+		for _, f := range x {
+			if hasSym(f) {
+				return true
+			}
+		}
 	}
 	return false
 }
@@ -94,22 +100,31 @@ func (m *omap) find(k value) *oent {
 	return nil
 }
 
-func workerOfDeep(v value) *Worker {
+func workerOfDeep(vs ...value) *Worker {
+	for _, v := range vs {
+		if w := workerOfDeep1(v); w != nil {
+			return w
+		}
+	}
+	return nil
+}
+
+func workerOfDeep1(v value) *Worker {
 	switch x := v.(type) {
 	case structure:
 		for _, f := range x {
-			if w := workerOfDeep(f); w != nil {
+			if w := workerOfDeep1(f); w != nil {
 				return w
 			}
 		}
 	case array:
 		for _, f := range x {
-			if w := workerOfDeep(f); w != nil {
+			if w := workerOfDeep1(f); w != nil {
 				return w
 			}
 		}
 	case iface:
-		return workerOfDeep(x.v)
+		return workerOfDeep1(x.v)
 	}
 	return workerOf(v)
 }
